@@ -1,9 +1,10 @@
 """Crash-point injection for persistence properties.
 
 A run is "killed" at the k-th mutation of the file system made through the names the code under test uses (open for
-writing, os.remove / Path.unlink, os.replace / os.rename, makedirs): either just BEFORE the operation, or -- for a file
-opened for writing -- AFTER it has been created/truncated but before any content reached it (the state a kill between
-open() and the first flush leaves behind).  k and the variant are symbolic integers of the harness; the kill is a
+writing, os.remove / Path.unlink, os.replace / os.rename): either just BEFORE the operation, or -- for a file opened for
+writing -- AFTER it has been created/truncated but before any content reached it, or -- for remove / replace -- right AFTER
+the operation completed.  Files opened for writing are wrapped: their data reaches the disk only at flush() / close(), and a
+kill discards whatever is still buffered (the unwinding exception runs `with` blocks, a real kill would not flush).  k and the variant are symbolic integers of the harness; the kill is a
 BaseException that unwinds the run."""
 import builtins
 import os
@@ -12,6 +13,46 @@ import pathlib
 
 class Kill(BaseException):
     pass
+
+
+class _Writer:
+    """file opened for writing below the root: data reaches the file only at flush() / close(), and never once the run
+    has been killed -- a kill loses whatever sits in user-space buffers"""
+
+    def __init__(self, inj, real):
+        self._inj, self._real, self._buf = inj, real, []
+
+    def write(self, data):
+        self._buf.append(data)
+        return len(data)
+
+    def writelines(self, lines):
+        for l in lines:
+            self.write(l)
+
+    def flush(self):
+        if self._inj.dead:
+            self._buf = []
+            return
+        for d in self._buf:
+            self._real.write(d)
+        self._buf = []
+        self._real.flush()
+
+    def close(self):
+        if not self._real.closed:
+            self.flush()
+            self._real.close()
+
+    def __enter__(self):
+        return self
+
+    def __exit__(self, *a):
+        self.close()
+        return False
+
+    def __getattr__(self, k):
+        return getattr(self._real, k)
 
 
 class Injector:
@@ -24,6 +65,7 @@ class Injector:
         self.root = os.path.realpath(root) if root else None
         self.count = 0
         self.log = []
+        self.dead = False
 
     def _mine(self, path):
         try:
@@ -49,7 +91,9 @@ class Injector:
                 if inj._tick("open-" + mode, file):
                     if inj.variant == "truncated":
                         real_open(file, mode, *a, **k).close()     # created / truncated, nothing written
+                    inj.dead = True
                     raise Kill(inj.log[-1])
+                return _Writer(inj, real_open(file, mode, *a, **k))
             return real_open(file, mode, *a, **k)
         for m in self.modules:
             self._saved.append((m, "open", m.__dict__.get("open", None)))
@@ -62,6 +106,12 @@ class Injector:
                 p = a[patharg] if len(a) > patharg else None
                 if p is not None and inj._mine(p):
                     if inj._tick(what, p):
+                        if inj.variant == "after":
+                            try:
+                                orig(*a, **k)           # the operation itself completed, the process dies right after it
+                            except OSError:
+                                pass
+                        inj.dead = True
                         raise Kill(inj.log[-1])
                 return orig(*a, **k)
             self._saved.append((obj, name, orig))
@@ -75,6 +125,12 @@ class Injector:
         def unlink(self_, *a, **k):
             if inj._mine(self_) and os.path.lexists(self_):
                 if inj._tick("remove", self_):
+                    if inj.variant == "after":
+                        try:
+                            orig_unlink(self_, *a, **k)
+                        except OSError:
+                            pass
+                    inj.dead = True
                     raise Kill(inj.log[-1])
             return orig_unlink(self_, *a, **k)
         self._saved.append((pathlib.Path, "unlink", orig_unlink))
